@@ -116,6 +116,9 @@ def run(ctx):
             a += ["--pct", str(rng.choice([1, 2, 3])), "--pct-len", str(rng.choice([60, 120, 250]))]
         runs.append(a)
     check_runs(ctx, binary, runs, "random")
+    # every start() overload (Future<void> / Future<A>, function / member function, 0..5 arguments): arguments and result
+    check_runs(ctx, binary, [["clients=1", "futs=1", "poolmax=%d" % pm, "poolcap=4", "mode=5", "workyield=%d" % (i % 2), "--seed", str(ctx.seed + i), "--spur", "0"]
+                             for i, pm in enumerate([1, 2, 3, 2] if ctx.quick else [1, 2, 3] * 10)], "overloads")
     # the pool's FastSignal on its own: small programs reach the interleavings of its two-step set / reset far more often
     # than whole-pool runs do (the lost wake-up repaired in ee820be needs a reset split by a complete set)
     from props import c11
